@@ -118,6 +118,10 @@ func init() {
 					Quick:    {Depth: 4, Budget: 60 * time.Second, ReplayEvery: 4},
 					Thorough: {Depth: 7, Budget: 6 * time.Minute, ReplayEvery: 8, MaxStates: 300000},
 				}},
+				{S: streamSameBlock("timing-same-block", streamTiming), Opt: map[Tier]Options{
+					Quick:    {Depth: 3, Budget: 60 * time.Second, ReplayEvery: 8},
+					Thorough: {Depth: 5, Budget: 6 * time.Minute, ReplayEvery: 8, MaxStates: 300000},
+				}},
 			},
 			Owns:        ownsAny("str.release_amount", "str.refund_amount", "str.lastoutflow", "str.zerotime", "str.sustain", "str.deposit"),
 			Extra:       c11Enum,
